@@ -79,7 +79,7 @@ def items(tier: str) -> List[Any]:
         small = small[:5]
     small.append(["txn GroupIndex", "int 1", "=="])
     l2 = 2 if tier == "quick" else 3
-    for s in spaces.layered(full, small, tier, l2_size=l2, max_subs=1, fall_off=False, l2_top_alpha=None if tier == "quick" else 4):
+    for s in spaces.layered(full, small, tier, l2_size=l2, max_subs=1, fall_off=False, l2_top_alpha=None if tier == "quick" else 2):
         if s not in seen:
             seen.add(s)
             out.append(("sound", s, None, None))
